@@ -53,7 +53,16 @@ HasDup(s) == \E i, j \in 1..Len(s) : i # j /\ s[i] = s[j]
 Check ==
     LET e == E IN
     IF e.ev = "Crash" THEN Chk(e, "Returned", FALSE)
-    ELSE IF e.ev = "Begin" THEN Chk(e, "LoggerBuilt", Ok(e))
+    ELSE IF e.ev = "Begin"
+         THEN /\ Chk(e, "LoggerBuilt", Ok(e))
+              \* "handed to each named writer regardless of the log specification" holds for records that come through the
+              \* log macros only if the global max level of the log facade, as set at start-up, admits what the writers
+              \* accept (and what the specification enables)
+              /\ IF Ok(e)
+                 THEN Chk(e, "StartGateCoversWritersAndSpec",
+                          /\ \A j \in 1..Len(e.norm.writers) : e.norm.gate >= e.norm.writers[j].ceil
+                          /\ e.norm.gate >= e.norm.spec.dflt /\ e.norm.gate >= e.norm.spec.m)
+                 ELSE TRUE
     ELSE IF e.ev # "Log" \/ c.kind # "route" THEN TRUE
     ELSE
     LET W  == c.writers
